@@ -49,10 +49,11 @@ def run(report: Report, tier, seed):
         "A1 L-frag (meta-lemma, not mechanised): if every __teal__ satisfies the fragment contract, the composed graph has the composed semantics",
         "parametricity: a construct observes its children only through type_of / has_return / __teal__ (opaque proxies; class-dependent branches are enumerated as separate scenarios)",
         "control domain enumerated, not symbolic: child types x has_return x pending exits (0..2) x listed versions x modes; operator arities 2,3,5 for N-ary constructs",
-        "flattenBlocks is under a pyvc contract (requires wf_blocks: what sortBlocks returns); L-flat (per-block lowering => trace equivalence of graph and list) is a meta-lemma",
-        "NormalizeBlocks, sortBlocks, deferred-expression splice: covered here only by bounded stand-ins")
+        "flattenBlocks is under a pyvc contract that requires wf_blocks; sortBlocks is under a pyvc contract that ensures it (duplicate-free, closed under successors, start listed, end last); "
+        "L-flat (per-block lowering => trace equivalence of graph and list) is a meta-lemma",
+        "NormalizeBlocks, deferred-expression splice: covered here only by bounded stand-ins")
     run_fragcheck(report, "O1.frag", tier=tier)
-    run_contracts(report, [("contracts.c01_flatten", "FlattenBlocks", "O1.26"),
+    run_contracts(report, [("contracts.c01_flatten", "FlattenBlocks", "O1.26"), ("contracts.c01_sort", "SortBlocks", "O1.27"),
                            ("contracts.c01_substring", "SubstringConst", "O1.14a"), ("contracts.c01_substring", "ExtractConst", "O1.14b"),
                            ("contracts.c01_substring", "SuffixConst", "O1.14c")])
     from . import substring_native
@@ -92,6 +93,8 @@ def run(report: Report, tier, seed):
     def search(fn, obs):
         if "flattenBlocks" in fn:
             return {"input": {"block_list": ff[0]}, "what": ff[0]["what"]} if ff else None
+        if "sortBlocks" in fn or "c01_sort" in fn:
+            return {"input": {"block_list": sf[0]}, "what": sf[0]["what"]} if sf else None
         if "substring" in fn:
             for o in obs:
                 hit = substring_native.from_model(fn, o.model if isinstance(o.model, dict) else None)
